@@ -172,7 +172,13 @@ def read(a: AV, key) -> AV:
   """Attribute (key=str), tuple index (int) or element ('*') of `a`."""
   direct = set()
   precise = False
+  marked = {c[1] for c in a.contents if _is_selfmark(c)}
   for o, lvl in a.direct:
+    if o in marked:
+      # a per-argument map of a Buildable: its elements are part of the
+      # Buildable itself (handled through the marks below)
+      precise = True
+      continue
     if lvl == 'self':
       # ('f', name): object in attribute `name`; ('f', '*'): an element
       direct.add((o, ('f', key if isinstance(key, str) else '*')))
@@ -195,6 +201,10 @@ def read(a: AV, key) -> AV:
     if precise:
       # attribute of (exactly) a parameter object: the field-level origin
       # is the precise answer; stores into it are tracked in `fields`
+      for c in a.contents:
+        if _is_selfmark(c):
+          direct.add((c[1], c[2]))
+          contents.add(c)
       return AV(direct, contents)
     for c in a.contents:
       if _is_selfmark(c):
@@ -846,6 +856,11 @@ class FuncAnalysis:
         return joins([elem(recv_av)] + pos[1:])
       if fn.attr == '_replace':
         return shallow(recv_av)
+      if fn.attr in ('bind', 'bind_partial'):
+        # inspect.Signature.bind*: a new BoundArguments with a new dict
+        held = container(allargs)
+        return AV(frozenset(), held.contents,
+                  {'arguments': held, 'args': held, 'kwargs': held})
       if fn.attr == 'follow' and len(pos) == 1:
         # PathElement.follow(container): a child of the container
         return deep(pos[0])
@@ -1072,8 +1087,9 @@ class FuncAnalysis:
       params = tf.params
       bound: Dict[int, AV] = {}
       if q in LEGACY_RUNNERS:
-        if params:
-          bound[len(params) - 1] = node_av
+        idx = 2 if q.endswith('traverse_with_all_paths') else 1
+        if len(params) > idx:
+          bound[idx] = node_av
       elif params:
         bound[0] = node_av
       ret = self.apply_summary(tf, bound, call, st)
